@@ -93,6 +93,7 @@ K_TSTART = "trajectory-does-not-start-at-observation"
 K_TMEMBER = "trajectory-not-propagated-through-the-particles-member"
 K_TNOISE = "noise-scale-not-the-members-per-output-std"
 K_PEND = "reward-differs-from-environment"
+K_PENDROLL = "summed-reward-differs-from-environment-return"
 
 E_CALL = "GaussianMLPEnsemble.__call__"
 E_AGG = "GaussianMLPEnsemble.aggregate"
@@ -1089,5 +1090,5 @@ def work_pendroll(item, col):
             if got.shape != (S,):
                 col.violation(SIG.format("evaluate_plans", K_PSHAPE), dict(meta, shape=got.shape))
             elif not np.all(np.abs(got - want) <= 1e-3 * H * np.maximum(1.0, np.abs(want))):
-                col.violation(SIG.format("evaluate_plans", K_PLAN), dict(meta, reward_model="pendulum_reward", got=got, env_return=want))
+                col.violation(SIG.format("pendulum_reward", K_PENDROLL), dict(meta, via="evaluate_plans", got=got, env_return=want))
     col.sample(dict(section="pendroll", last=meta, got=got, env_return=want))
